@@ -65,8 +65,12 @@ func testNumber(r *rng, fixedLen, repLen, exp int, alphabet int) numSpec {
 		length = -1
 	}
 	ff, rr := append([]int(nil), f...), append([]int(nil), rep...)
+	kind := "T"
+	if (fixedLen == 0 || repLen == 0) && r.coin(35) {
+		kind = "TE" // the empty list is passed as an empty NON-NIL slice ([]int{}), which must mean the same as nil
+	}
 	return numSpec{
-		desc:   fmt.Sprintf("T:%s:%s:%d", digitsCSV(f), digitsCSV(rep), exp),
+		desc:   fmt.Sprintf("%s:%s:%s:%d", kind, digitsCSV(f), digitsCSV(rep), exp),
 		length: length,
 		digit: func(p int) int {
 			if p < len(ff) {
